@@ -76,6 +76,8 @@ def variants(algo, tier):
         out.append(("non_negative", {"init": "svd", "non_negative": True}, 3 if q else 5, False))
         out.append(("l1", {"init": "random", "l1_reg": 0.05}, 2 if q else 5, False))
         out.append(("unimodal-mode0", {"init": "svd", "unimodality": {0: True}}, 2 if q else 4, False))
+        out.append(("fixed-last", {"init": "svd", "non_negative": True, "fixed_modes": "LAST"}, 2 if q else 4, False))  # documented: the last mode is not fixed (warning)
+        out.append(("fixed-0-last", {"init": "random", "l2_reg": 0.1, "fixed_modes": "0,LAST"}, 2 if q else 4, False))
         if not q:
             out.append(("simplex", {"init": "random", "simplex": 1.0}, 4, False))
             out.append(("l2sq", {"init": "svd", "l2_square_reg": 0.1}, 4, False))
